@@ -43,7 +43,11 @@ func genCase(prop, tier string, base uint64, i uint64) *Case {
 	case "C04":
 		c = genC04(r, tier)
 	case "C05":
-		c = genC05(r, tier)
+		if i >= boundaryEnumBase {
+			c = genC05BoundaryEnum(i - boundaryEnumBase)
+		} else {
+			c = genC05(r, tier)
+		}
 	case "C06":
 		c = genC06(r, tier)
 	case "C08":
@@ -289,7 +293,122 @@ var c05Ctx = []string{"top", "closure", "seq-map", "par-map", "seq-accept", "par
 	"merge-operand-combine", "par-upstream-combine", "par-upstream-number", "collector-iir", "collector-accept", "collector-cross", "seq-cross", "seq-compact", "seq-fsm",
 	"seq-combine3", "seq-number", "par-map-nested", "groupby", "minmax", "visit", "present", "index-where"}
 
+// boundary operands for operators, static functions and methods: "all (operator, operand-type
+// pair, boundary value) combinations". The oracle for this class is only: no crash, no hang.
+var boundaryArgs = []Arg{
+	{K: "int", I: 0}, {K: "int", I: 1}, {K: "int", I: -1}, {K: "int", I: 2}, {K: "int", I: 3}, {K: "int", I: 7}, {K: "int", I: 62}, {K: "int", I: 63}, {K: "int", I: 64}, {K: "int", I: 65},
+	{K: "int", I: -63}, {K: "int", I: -64}, {K: "int", I: 1 << 31}, {K: "int", I: 1 << 32}, {K: "int", I: 1 << 53}, {K: "int", I: 1 << 62},
+	{K: "int", I: 9223372036854775807}, {K: "int", I: -9223372036854775808}, {K: "int", I: -9223372036854775807}, {K: "int", I: 9223372036854775806},
+	{K: "float", F: 0}, {K: "float", S: "-0"}, {K: "float", F: 0.5}, {K: "float", F: -1.5}, {K: "float", F: 1e308}, {K: "float", F: -1e308}, {K: "float", F: 1e-320},
+	{K: "float", S: "inf"}, {K: "float", S: "-inf"}, {K: "float", S: "nan"}, {K: "float", F: 9223372036854775808}, {K: "float", F: -9223372036854775808}, {K: "float", F: 1e30},
+	{K: "str", S: ""}, {K: "str", S: "a"}, {K: "str", S: "%d"}, {K: "str", S: "%s%s%s%v"}, {K: "str", S: "abc"}, {K: "str", S: "\u00e9\u20ac"}, {K: "str", S: "%!(EXTRA"}, {K: "str", S: "12"}, {K: "str", S: "1e999"},
+	{K: "bool", B: true}, {K: "bool", B: false}, {K: "ints", L: []int{}}, {K: "ints", L: []int{1}}, {K: "ints", L: []int{1, 2, 3}}, {K: "map", L: []int{1}}, {K: "nums", I: 0}, {K: "nums", I: 4},
+}
+
+var boundaryExprs = []string{
+	"x+y", "x-y", "x*y", "x/y", "x%y", "x^y", "x<<y", "x>>y", "x&y", "x|y", "x=y", "x!=y", "x<y", "x>y", "x<=y", "x>=y", "x~y", "-x", "!x",
+	"abs(x)", "sqr(x)", "sqrt(x)", "ln(x)", "log10(x)", "exp(x)", "sin(x)", "cos(x)", "tan(x)", "asin(x)", "acos(x)", "atan(x)", "floor(x)", "ceil(x)", "trunc(x)", "round(x)", "int(x)", "float(x)",
+	"string(x)", "isInt(x)", "isFloat(x)", "sign(x)", "goto(x)", "random(x)", "throw(x)", "binAnd(x,y)", "binOr(x,y)", "min(x,y)", "max(x,y)", "min(x)", "max(x,y,x)",
+	"numbers(x).top(2).size()", "numbers(x).first()", "sprintf(\"%d %v\", x, y)", "sprintf(x, y)", "sprintf(x)", "sprintf(\"%s %d %f\", x)",
+	"[1,2,3].top(x).size()", "[1,2,3].skip(x).size()", "[1,2,3].set(x,y).size()", "[1,2,3][x]", "[1,2,3].combineN(x%100, l->l.size()).size()", "[1,2,3].append(x).size()",
+	"numbers(6).top(x).skip(y).size()", "numbers(6).skip(x).top(y).size()", "numbers(6).combineN(x%100, l->l[y]).size()",
+	"\"abcdef\".cut(x,y)", "\"abcdef\".split(x)", "\"abc\".indexOf(x)", "\"abc\".contains(x)", "\"abc\".replace(x,y)", "\"abc\".behind(x)", "\"a,b,c\".behindList(x)", "\"abc\"+x",
+	"{a:1}.get(x)", "{a:1}.put(x,y).size()", "{a:1}.isAvail(x)", "{a:1}+x", "{a:1}.replace(e->x)", "{a:1}.map((k,e)->x).size()",
+	"x.size()", "x.string()", "x.len()", "x[y]", "x.a", "x(y)", "x.map(e->e).size()", "x.toInt()", "x.toFloat()", "x.first()", "x.list()", "x.k0", "x.eval()",
+	"numbers(5).binning(x,y,3,e->e,e->1).size()", "numbers(5).binning(0,1,x%100,e->e,e->1).size()", "numbers(5).binning(0,x,3,e->e*y,e->1).size()", "numbers(5).binning2d(0,1,x%50,0,1,y%50,e->e,e->e,e->1).size()",
+	"numbers(5).movingWindow(e->e*x).size()", "numbers(4).order(e->e*x).size()", "numbers(4).map(e->e^x).sum()", "numbers(4).map(e->x^e).sum()", "numbers(4).iir(e->x,(e,l)->l^y).last()",
+	"bisection(e->e*x-y, 0, 10)", "bisection(e->e, x, y)", "bisection(e->e-1, 0, 10, x)", "[x,y].min()", "[x,y].max()", "[x,y].sum()", "[x,y].mean()", "[x,y].order(e->e).size()", "[x,y].groupByEqual(e->e).size()",
+	"[x,y].groupByInt(e->e).size()", "[x,y].uniqueString(e->e).size()", "[x,y].minMax(e->e).min", "x ~ [y]", "[x] ~ [y,x]", "switch x case y: 1 default 2", "if x then 1 else 2", "x/y*y", "x^y^y", "(x<<y)>>y", "x%y%x",
+	"numbers(3).map(e->{t:e*x,v:y}).iirApply(createLowPass(\"f\", p->p.t, p->p.v, x)).size()", "[{x:x,y:y},{x:y,y:x}].createInterpolation(p->p.x,p->p.y)(x)", "[{x:0,y:x},{x:1,y:y}].linearReg(p->p.x,p->p.y).a",
+}
+
+func genC05Boundary(r *rng) *Case {
+	expr := pick(r, boundaryExprs...)
+	x, y := pick(r, boundaryArgs...), pick(r, boundaryArgs...)
+	ctx := pick(r, "top", "top", "closure", "try", "par-map", "seq-map")
+	text := expr
+	parallel := false
+	switch ctx {
+	case "closure":
+		text = "(u->" + expr + ")(0)"
+	case "try":
+		text = "try " + expr + " catch -77"
+	case "par-map":
+		text = "numbers(20).map(i->cost(0,i)+(if i=15 then [" + expr + "].size() else 0)).sum()"
+		parallel = true
+	case "seq-map":
+		text = "numbers(3).map(i->[" + expr + "].size()).sum()"
+	}
+	host := HostTables{}
+	if parallel {
+		host.Costs = []CostProf{{Base: 300_000}}
+	}
+	sim, _ := genSim(r, parallel, false)
+	sc := &Script{NFn: 1, Host: host,
+		Setup:   []Op{{Kind: "gen", Text: text, ArgNames: []string{"x", "y"}}},
+		Clients: [][]Op{{{Kind: "eval", Args: []Arg{x, y}, Consume: -1}}}}
+	c := &Case{Class: "boundary@" + ctx, Sim: sim, Script: sc}
+	c.X.Fault, c.X.Ctx = "boundary", ctx
+	return c
+}
+
+// boundaryEnumBase: run indices from here on enumerate (expression, x, y) completely
+const boundaryEnumBase = 1_000_000
+
+func boundaryCombos() int {
+	n := 0
+	for _, e := range boundaryExprs {
+		if strings.Contains(e, "y") {
+			n += len(boundaryArgs) * len(boundaryArgs)
+		} else {
+			n += len(boundaryArgs)
+		}
+	}
+	return n
+}
+
+// genC05BoundaryEnum maps an index to one (expression, x, y) combination; the context
+// rotates with the index.
+func genC05BoundaryEnum(e uint64) *Case {
+	idx := int(e % uint64(boundaryCombos()))
+	na := len(boundaryArgs)
+	for _, ex := range boundaryExprs {
+		n := na
+		if strings.Contains(ex, "y") {
+			n = na * na
+		}
+		if idx >= n {
+			idx -= n
+			continue
+		}
+		x, y := boundaryArgs[idx%na], boundaryArgs[0]
+		if n > na {
+			y = boundaryArgs[idx/na]
+		}
+		ctx := []string{"top", "top", "top", "try", "closure", "seq-map"}[int(e/7)%6]
+		text := ex
+		switch ctx {
+		case "closure":
+			text = "(u->" + ex + ")(0)"
+		case "try":
+			text = "try " + ex + " catch -77"
+		case "seq-map":
+			text = "numbers(3).map(i->[" + ex + "].size()).sum()"
+		}
+		sc := &Script{NFn: 1,
+			Setup:   []Op{{Kind: "gen", Text: text, ArgNames: []string{"x", "y"}}},
+			Clients: [][]Op{{{Kind: "eval", Args: []Arg{x, y}, Consume: -1}}}}
+		c := &Case{Class: "boundary-enum@" + ctx, Sim: SimCfg{NumCPU: 1, Policy: "canonical"}, Script: sc}
+		c.X.Fault, c.X.Ctx = "boundary", ctx
+		return c
+	}
+	return &Case{}
+}
+
 func genC05(r *rng, tier string) *Case {
+	if r.chance(0.25) {
+		return genC05Boundary(r)
+	}
 	fault := pick(r, c05Faults...)
 	if r.chance(0.03) {
 		fault = "runaway-fresh"
@@ -464,6 +583,7 @@ func genC08(r *rng, tier string) *Case {
 			p.Stages = []Stage{{Op: "map"}}
 		}
 		for i := range p.Stages {
+			p.Stages[i].Fn %= 4 // no constant sub-pipelines: those are evaluated by the optimizer inside Generate
 			if hasClosure(p.Stages[i].Op) {
 				p.Stages[i].Probe = true
 			}
@@ -610,6 +730,20 @@ func genC08(r *rng, tier string) *Case {
 			need, x.Need2 = k+offset, k+offset
 		}
 	}
+	// the decisive source element, without read-ahead (sequential-mode error oracle)
+	if second == "" {
+		x.HasDec = true
+		switch term {
+		case "first":
+			x.Dec = offset
+		case "single":
+			x.HasDec = false // single on a longer list is an error by itself
+		case "multiUse":
+			x.HasDec = false // the distributor reads one element further by design
+		default:
+			x.Dec = k + offset
+		}
+	}
 	// the source must be longer than everything the consumer needs
 	if m := 2*(need+offset) + 30; p.N < m {
 		p.N = m
@@ -716,7 +850,7 @@ func genC12(r *rng, tier string) *Case {
 			if huge {
 				p.MU = append(p.MU, Stage{Op: pick(r, "first", "topsize", "present"), N: r.rangeInt(1, 30)})
 			} else {
-				p.MU = append(p.MU, Stage{Op: pick(r, "first", "topsize", "sum", "size", "noread", "present", "last", "sum", "size", "notfunc", "arity2"), N: r.rangeInt(1, 30)})
+				p.MU = append(p.MU, Stage{Op: pick(r, "first", "topsize", "sum", "size", "noread", "noread", "present", "last", "sum", "size", "notfunc", "arity2", "twice", "twice", "twice-short"), N: r.rangeInt(1, 30)})
 			}
 		}
 	}
